@@ -179,7 +179,24 @@ def main(job_path: str, out_path: str):
             os.makedirs(os.path.dirname(path), exist_ok=True)
             with open(path, "w") as fh:
                 fh.write(text)
-        res = {"id": env["id"], "griffe": griffe_side(griffe, root, env), "cpython": cpython_side(root, env)}
+        groot = root
+        if env.get("stub", "none") != "none":
+            # Scope.tla FileSuffixes: Griffe sees the site module as a stub file (alone, or next to the .py and merged into it);
+            # CPython keeps executing the .py twin with the same text (a stub carries the name of the module it describes)
+            groot = root + "_g"
+            site = MOD_FILE[env["M"]]
+            for rel, text in files.items():
+                targets = [rel]
+                if rel == site:
+                    targets = [rel + "i"] if env["stub"] == "only" else [rel, rel + "i"]
+                for t in targets:
+                    path = os.path.join(groot, t)
+                    os.makedirs(os.path.dirname(path), exist_ok=True)
+                    with open(path, "w") as fh:
+                        fh.write(text)
+        res = {"id": env["id"], "griffe": griffe_side(griffe, groot, env), "cpython": cpython_side(root, env)}
+        if groot != root:
+            shutil.rmtree(groot, ignore_errors=True)
         if job.get("keep_source"):
             res["source"] = files[MOD_FILE[env["M"]]]
         results.append(res)
